@@ -126,6 +126,10 @@ def classify(case):
     o = case.get("observed") or {}
     if i.get("kind") != "pat" or not o.get("accepted"):
         return None
+    j = o.get("json") or {}
+    if not j.get("accepted") or j.get("num_variants") != o.get("num_variants") \
+            or j.get("raw_count_capped_at_1001") != j.get("num_variants"):
+        return None          # entry points that disagree (accept/reject or count) are never a known finding
     n = o.get("num_variants")
     if o.get("enumerated") is False:
         return None          # an accepted pattern whose reported count is not in 1..1000 is never a known finding
@@ -154,7 +158,8 @@ SPEC = dict(
                      mismatch="Patterns.mismatch", monitor="Patterns.monitor_fail")),
     ],
     classify=classify,
-    rule=("pat cases: 8 fixed witnesses (non-normal-form patterns, 64 groups); ALL patterns `/` + <= 3 (quick) / <= 4 (thorough) "
+    rule=("every pattern goes through BOTH entry points that produce a PathPattern (ParsePathPattern and json.Unmarshal -> UnmarshalJSON; `grep .parse(` finds no other); "
+          "pat cases: 6 limit patterns (999, 1001 = 7*11*13, 1024, 3072 expansions, one group of 1001 alternatives, 1000 x 2), 8 fixed witnesses (non-normal-form patterns, 64 groups); ALL patterns `/` + <= 3 (quick) / <= 4 (thorough) "
           "tokens over {a, b, /, *, ?, {, `,`, }, **}, each against ALL clean paths (no empty segment) of length <= 3 over a b / plus /a/b /a/a /b/a /aab /ab/ /a/b/ (quick) / ALL clean paths of length <= 4 (thorough); "
           "5 fixed + every 10th random case from the nested-group family {{X},{X,y}} / {{X,y},{X}} / {p{X},p{X,y}} (alternatives sharing a "
           "prefix of alternatives, either order, optional third alternative, heads /foo/ /Pictures/ ..., tails /x /** .bak) against one "
